@@ -5,5 +5,6 @@ for i in ${@:-$(seq -w 1 20)}; do
   s=$(date +%s)
   out=$(./vcheck C$i --tier thorough 2>&1); rc=$?
   echo "C$i rc=$rc $(( $(date +%s) - s ))s $(echo "$out" | grep -E 'tier=' | cut -c1-200)"
-  echo "$out" | grep -E "^VIOLATION|^HARNESS-ERROR|^KNOWN|^INCONCLUSIVE" | head -8 | cut -c1-220
+  echo "$out" | grep -E -A8 "^VIOLATION|^HARNESS-ERROR|^KNOWN" | head -60 | cut -c1-700
+  echo "$out" | grep -E "^INCONCLUSIVE" | head -8 | cut -c1-220
 done
